@@ -41,7 +41,11 @@ META = {
     "conditioned instances; acorr / lag_matrix / toeplitz are compared with "
     "== against independently written plain sums. Sampled inputs (small "
     "ternary blocks exhaustively): evidence for the executions observed, "
-    "not a proof for all inputs; float rounding is bounded, not excluded.",
+    "not a proof for all inputs; float rounding is bounded, not excluded. "
+    "All-Fraction lags / blocks (reflection coefficients a hair inside "
+    "(-1, 1), lags outside the float range, binomial blocks) are a "
+    "separate class: every normal equation and the error identity must "
+    "hold with ==.",
   "technique": "runtime monitor: exact-rational residuals of the normal "
                "equations (backward error) + exact Levinson / plain-sum "
                "oracles, exhaustive ternary blocks + random cases",
